@@ -1,0 +1,29 @@
+// Verification-only seams. Compiled only with `--cfg tikv_raft_rs_verif`; even then
+// nothing changes unless a simulator installs a source on the current thread.
+
+//! Seams used by the deterministic-simulation harness.
+
+use std::cell::RefCell;
+
+type TimeoutSource = Box<dyn FnMut(u64, usize, usize) -> usize>;
+
+thread_local! {
+    static ELECTION_TIMEOUT_SOURCE: RefCell<Option<TimeoutSource>> = RefCell::new(None);
+}
+
+/// Installs (or removes, with `None`) the source of randomized election timeouts for
+/// raft instances driven on the current thread. The source is called with
+/// `(node id, min, max)` and must return a value in `[min, max)`.
+pub fn set_election_timeout_source(src: Option<TimeoutSource>) {
+    ELECTION_TIMEOUT_SOURCE.with(|s| *s.borrow_mut() = src);
+}
+
+pub(crate) fn election_timeout(id: u64, min: usize, max: usize) -> Option<usize> {
+    ELECTION_TIMEOUT_SOURCE.with(|s| {
+        s.borrow_mut().as_mut().map(|f| {
+            let t = f(id, min, max);
+            assert!(min <= t && t < max, "verif election timeout out of range");
+            t
+        })
+    })
+}
